@@ -1,10 +1,13 @@
 package main
 
 // Shared by C07 and C11: a real server (either kind) over in-memory pipes with full control
-// of both directions, counting in-memory handlers for the request server, an independent
+// of both directions (ssStartTr: as one connection whose Close ends both, as two independent
+// streams of which Close ends the server's output only, or with the whole input in a
+// bytes.Reader), counting in-memory handlers for the request server, an independent
 // strict request parser ("judge"), a reply/handle tracker, and fd / goroutine scans.
 
 import (
+	"bytes"
 	"context"
 	"crypto/sha256"
 	"encoding/binary"
@@ -112,11 +115,33 @@ func ssDbgLeftOpen(lines []string) (handles []string, unread []string) {
 var errSSTimeout = errors.New("timeout")
 
 func ssStart(cfg ssCfg, tree string, fs *cntFS) (*ssSrv, error) {
+	return ssStartTr(cfg, tree, fs, "", nil)
+}
+
+// ssTransports are the transports of ssStartTr (see ssMut.Tr).
+var ssTransports = map[string]bool{"": true, "split": true, "buf": true}
+
+// ssStartTr starts the server on the transport tr: "" — what the server is handed behaves like one connection
+// (its Close ends both directions); "split" — reader and writer are independent pipes and Close ends the
+// writer only (the read side survives, as with stdin / stdout); "buf" — the reader is a bytes.Reader over feed
+// (the whole input, EOF after its last byte; Send / CloseInput have no meaning), the writer a separate pipe
+// that Close ends.  The os-backed server reads through the containment guard on every transport.
+func ssStartTr(cfg ssCfg, tree string, fs *cntFS, tr string, feed []byte) (*ssSrv, error) {
+	if !ssTransports[tr] {
+		return nil, errors.New("unknown transport " + strconv.Quote(tr))
+	}
 	c2sR, c2sW := io.Pipe()
 	s2cR, s2cW := io.Pipe()
 	s := &ssSrv{cfg: cfg, toSrv: c2sW, c2sR: c2sR, fromSrv: s2cR, s2cW: s2cW, fs: fs,
 		frames: make(chan wire.Pkt, 1<<14), done: make(chan struct{})}
 	rwc := ssRWC{Reader: c2sR, Writer: s2cW, close: func() { c2sR.Close(); s2cW.Close() }}
+	switch tr {
+	case "split":
+		rwc.close = func() { s2cW.Close() }
+	case "buf":
+		rwc.Reader = bytes.NewReader(append([]byte(nil), feed...))
+		rwc.close = func() { s2cW.Close() }
+	}
 	var serve func() error
 	if cfg.Kind == "os" {
 		var opts []sftp.ServerOption
